@@ -98,6 +98,7 @@ func init() {
 	RegisterKind("snap-cross-effect", "C04")
 	RegisterKind("goroutines-left-blocked", "C09", "C13", "C15", "C18")
 	RegisterKind("mutex-wedged", "C09", "C12", "C13", "C16", "C18")
+	RegisterKind("library-spin", "C09", "C18")
 	RegisterKind("linearizability", "C04", "C18")
 	RegisterKind("count-mismatch", "C04", "C06", "C15")
 	// request outcomes
